@@ -673,7 +673,7 @@ func (fr *frame) loopArrive() {
 		if !ok {
 			break
 		}
-		phis = append(phis, fr.env[phi])
+		phis = append(phis, fr.env[fr.code.slotOf[phi]])
 	}
 	back := fr.prevBlock != nil && fr.block.Dominates(fr.prevBlock)
 	if ls == nil || !back {
@@ -767,6 +767,9 @@ func havocCall(fr *frame, fn *ssa.Function, args []value) value {
 	px := fr.i.px
 	res := fn.Signature.Results()
 	mk := func(t types.Type) value {
+		if types.Identical(t, types.Universe.Lookup("error").Type()) {
+			return fr.i.newError("<overridden " + fn.Name() + ">")
+		}
 		switch u := t.Underlying().(type) {
 		case *types.Basic:
 			switch {
